@@ -34,7 +34,7 @@ CHECKS = {
  "C08": dict(level="model_checking", engine="E2", design="3 C08, 9.3, 9.4",
    technique="exhaustive enumeration of (formula of the enumerated grammar, placement, insert/remove history) with an independent AST reference shifter and own lexer; every transition compared",
    text="Every formula of the enumerated expression grammar (<=2 leaves quick / <=3 leaves thorough, 63 leaf forms, 25 combinators, depth-6 chains) placed on each of 3 sheets, under every workbook-level insert/remove row/column history of length 1 (120 edits), length 2 on reduced sets and length 3-4 on a 40-formula core; plus defined names (global / sheet-scoped) and a chart series. Oracle: references designate the translated survivors or #REF!, everything else token-identical (own lexer), edits terminate (watchdog).",
-   note="Trusted: harness/src/fgrammar.rs (AST renderer, lexer validated on every enumerated formula before each run, reference shifter). Many tokenizer defects are recorded as known findings; behind a damaged token the rest of a formula cannot be judged."),
+   note="Trusted: harness/src/fgrammar.rs (AST renderer, lexer validated on every enumerated formula before each run, reference shifter). The tokenizer defects first recorded as known findings are all repaired in /repo (status fixed)."),
  "C09": dict(level="exploration", engine="E1", design="3 C09, 9.4",
    technique="bounded-exhaustive enumeration of the formula grammar x identity paths x coordinate moves with an own lexer and AST translator as oracle; per-case watchdog for termination",
    text="Every formula of the enumerated grammar (25k quick / 480k thorough) goes through three identity paths (set_coordinate to itself, far insert, insert on another sheet) and 24+ translations incl. grid edges; token sequences must be identical character for character (only insignificant blanks may differ) and translation must add (dc,dr) to exactly the non-$ parts or give #REF!; hangs are attributed to the formula by the worker watchdog.",
@@ -84,6 +84,15 @@ CHECKS = {
    text="Complete enumeration of the finite codec domains (all columns, all 1-3 letter names, every row x boundary columns x lock patterns, all range shapes over boundary corners, all legal sheet names of <=3 atoms) against an independent base-26/quoting reference; the domain is finite, so exhaustion settles the property inside the stated sheet-name bound.",
    note="Trusted: the harness's 10-line bijective base-26 numeral and its quoted-address parser. Sheet names beyond 3 atoms only via five 31-character boundary names."),
 }
+
+# spaces added after the first registration (see DESIGN 10.6)
+CHECKS["C01"]["text"] += " Added: cells that reach their place through move/copy/insert/remove (built), and every sequence of 2 (thorough 3) writes into the SAME cell with and without a save+reload between the writes, where the reloaded content must also equal that of a workbook given only the last value (overwrite / history-independent)."
+CHECKS["C03"]["text"] += " Added generator families: pretty-printed XML (white space between tags), shared-formula blocks at the grid edges with the master not top-left, optional r attributes on <row>/<c>, main namespace bound to a prefix (known finding C03-K6)."
+CHECKS["C04"]["text"] += " Added initial states: loaded workbooks with a shared-formula group and with <cols> entries that leave a gap left of existing entries (the edit position 'first column without an entry left of one' is enumerated for every source)."
+CHECKS["C05"]["text"] += " Added: style objects moved between reloaded workbooks (transfer) and two cells sharing one style of which one is edited in place after a reload, compared with a twin workbook given the final styles directly (edit-after-load)."
+CHECKS["C06"]["text"] += " Added: every ordered pair (loaded kind, kind added after a reload, on the same or another sheet), and sheet removal by name / of a middle sheet."
+CHECKS["C08"]["text"] += " Added: reversed-corner ranges, shared-formula groups whose children hold only view text, defined names and chart series as reference carriers."
+CHECKS["C17"]["text"] += " Added clause: Worksheet::set_style_by_range as a public consumer of whole-row / whole-column range corners."
 ENGINES=[
  {"name":"E4","path":"harness/src/c13.rs","serves_properties":["C13"],"kind_free_text":"fault and kill-point enumerator: failing io::Write sink, RLIMIT_FSIZE per byte in forked children, strace -e inject error/SIGKILL per syscall index"},
  {"name":"E2","path":"harness/src/e2.rs","serves_properties":["C04","C07","C08","C10","C11","C12"],"kind_free_text":"explicit-state breadth-first explorer over real library objects cloned per node, lock-step reference model / invariant per transition, run inside pool cases (hang/crash attribution)"},
